@@ -9,7 +9,8 @@ EXTENDS Resolve, Json
 
 Marker(x) == Obj(<<Prop(x, Prim("num"))>>)
 
-ModG(n) == <<Let(n, Marker("u")), Let("t", Marker("t"))>>
+\* g imports h under the same qualifier name the main module uses, and has a qualified use of its own
+ModG(n) == <<UseAs("h", "q"), Let(n, Marker("u")), Let("t", Marker("t")), Let("w", QVar("q", n))>>
 ModH(n) == <<Let(n, Marker("q"))>>
 
 \* the statements that contain the use of the contested name n
@@ -49,8 +50,9 @@ ScopesSmall ==
 
 \* one CASE line per (program, module): the reference answer
 TableSeq(t) == LET s == CHOOSE f \in [1..Cardinality(t) -> t] : \A a, b \in 1..Cardinality(t) : a # b => f[a] # f[b] IN s
-\* modules loaded for the main program (imports are not transitive in this family)
-LoadedMods == {prog.main} \cup {u.s : u \in {prog.mods[prog.main][i] : i \in {j \in 1..Len(prog.mods[prog.main]) : prog.mods[prog.main][j].k = "use"}}}
+\* modules loaded for the main program (import chains have length <= 2 in this family)
+UsesOfMod(m) == {u.s : u \in {prog.mods[m][i] : i \in {j \in 1..Len(prog.mods[m]) : prog.mods[m][j].k = "use"}}}
+LoadedMods == LET A == {prog.main} \cup UsesOfMod(prog.main) IN A \cup UNION {UsesOfMod(m) : m \in A}
 
 \* find-references: the uses, in any loaded module, whose binder is the given one; and its inverse
 RefsOf(b) == UNION {{[m |-> m2, use |-> r.use] : r \in {x \in RefTable(prog, m2) : x.b = b}} : m2 \in LoadedMods}
